@@ -563,9 +563,18 @@ def rule_dep5(ck: Check, repo: Repo) -> None:
     fn = repo.func(q)
     ck.analysed_fn(q)
 
+    # 'the last matching paragraph applies' is python-debian's Copyright.find_files_paragraph (library semantics, T2).  A
+    # lookup of the project's own (one regex over all paragraphs, a loop with break) has to re-establish last-match-wins,
+    # which this rule cannot read off a call: not decided.
+    lookups = [ast.unparse(c.func) for c in ast.walk(fn) if isinstance(c, ast.Call) and isinstance(c.func, ast.Attribute) and c.func.attr == "find_files_paragraph"]
+    r.instance("paragraph-lookup", {"calls": lookups})
+    if not lookups or any(not l.endswith("dep5_copyright.find_files_paragraph") for l in lookups):
+        raise AnalysisError(f"ReuseDep5.reuse_info_of: the Files paragraph is not looked up with python-debian's find_files_paragraph ({lookups});"
+                            " whether the LAST matching paragraph wins is not decided for another lookup")
+
     class H(Hooks):
         def atom(self, text, node, it):
-            if text.endswith(".find_files_paragraph(PurePath(path).as_posix()) is None"):
+            if text.endswith("dep5_copyright.find_files_paragraph(PurePath(path).as_posix()) is None"):
                 return "no_paragraph"
             return None
 
